@@ -34,7 +34,7 @@ var errTransfer = errors.New("transfer broke")
 // StatesFor lists the named states the harness can drive a channel of a role into.
 func StatesFor(r Role) []string {
 	if r.Created() {
-		return []string{"requested", "accepted", "ongoing", "ongoing-data", "two-vouchers", "self-paused", "other-paused", "transfer-finished", "responder-completed", "responder-finalizing", "completed", "cancelled", "failed"}
+		return []string{"requested", "accepted", "ongoing", "ongoing-data", "two-vouchers", "self-paused", "other-paused", "transfer-finished", "responder-completed", "responder-finalizing", "paused-responder-completed", "paused-responder-finalizing", "completed", "cancelled", "failed"}
 	}
 	return []string{"accepted", "ongoing", "ongoing-data", "two-vouchers", "self-paused", "other-paused", "limit-paused", "finalizing", "completed", "cancelled", "failed"}
 }
@@ -135,6 +135,13 @@ func Setup(n *Node, r Role, state string, opts ...datatransfer.TransferOption) d
 		data(1, 10)
 		_ = h.OnChannelCompleted(chid, nil)
 		mc.Wait()
+	case "paused-responder-completed", "paused-responder-finalizing":
+		// the initiator paused while the transfer was ongoing; the responder's Complete arrives while it is still paused
+		ongoing()
+		data(1, 10)
+		_ = n.Mgr.PauseDataTransferChannel(ctx, chid)
+		mc.Wait()
+		n.RecvResponse(doubles.PeerB, mustResp(message.CompleteResponse(chid.ID, true, state == "paused-responder-finalizing", nil)))
 	case "responder-completed":
 		ongoing()
 		data(1, 10)
@@ -180,9 +187,9 @@ func ExpectStatus(r Role, state string) datatransfer.Status {
 		return datatransfer.Finalizing
 	case "transfer-finished":
 		return datatransfer.TransferFinished
-	case "responder-completed":
+	case "responder-completed", "paused-responder-completed":
 		return datatransfer.ResponderCompleted
-	case "responder-finalizing":
+	case "responder-finalizing", "paused-responder-finalizing":
 		return datatransfer.ResponderFinalizing
 	case "completed":
 		return datatransfer.Completed
